@@ -14,10 +14,13 @@ def sh(cmd, cwd=None, timeout=1500):
     p = subprocess.run(cmd, shell=True, cwd=cwd, env=ENV, capture_output=True, text=True, timeout=timeout)
     return p.returncode, (p.stdout + p.stderr)
 
+SRC = os.environ.get("SEED_SRC", "/tmp/wt/out")
+OFFSET = int(os.environ.get("SEED_OFFSET", "0"))
+
 def confirm(pid, k):
-    src = f"/tmp/wt/out/{pid}/m{k}"
+    src = f"{SRC}/{pid}/m{k}"
     meta = json.load(open(f"{src}/meta.json"))
-    wt = f"/tmp/sw/{pid}-m{k}"
+    wt = f"/tmp/sw/{pid}-m{k+OFFSET}"
     os.makedirs("/tmp/sw", exist_ok=True)
     sh(f"git -C /repo worktree remove --force {wt}")
     rc, out = sh(f"git -C /repo worktree add --detach {wt} HEAD")
@@ -77,7 +80,7 @@ def confirm(pid, k):
             return res
         res["demo_failure_excerpt"] = "\n".join([l for l in out1.splitlines() if "---" in l or "Error" in l or "FAIL" in l or "zz" in l][:8])[-700:]
         # keep
-        dst = f"/verif/seeded/{pid}-m{k}"
+        dst = f"/verif/seeded/{pid}-m{k+OFFSET}"
         os.makedirs(dst, exist_ok=True)
         # patch relative to HEAD (demo excluded)
         os.remove(f"{wt}/{rel}")
